@@ -12,8 +12,17 @@ import try_patch, facts as FACTS
 BASE = open(os.path.join(V, "refactors", "BASE")).read().strip()
 
 
-def export_base(d):
-    p = subprocess.run("git -C /repo archive %s src Cargo.toml Cargo.lock README.md | tar -x -C %s" % (BASE, d), shell=True)
+def base_of(patch):
+    """the commit a refactoring was written for: "base" in its meta.json, else refactors/BASE"""
+    m = patch[:-len(".diff")] + ".meta.json"
+    try:
+        return json.load(open(m)).get("base") or BASE
+    except Exception:
+        return BASE
+
+
+def export_base(d, base=BASE):
+    p = subprocess.run("git -C /repo archive %s src Cargo.toml Cargo.lock README.md | tar -x -C %s" % (base, d), shell=True)
     return p.returncode == 0
 
 
@@ -26,19 +35,18 @@ def reports(d):
     return out
 
 
-_base_reports = None
+_base_reports = {}
 
 
-def base_reports():
-    global _base_reports
-    if _base_reports is None:
+def base_reports(base=BASE):
+    if base not in _base_reports:
         d = tempfile.mkdtemp(prefix="rxbase-", dir="/var/tmp")
         try:
-            export_base(d)
-            _base_reports = reports(d)
+            export_base(d, base)
+            _base_reports[base] = reports(d)
         finally:
             shutil.rmtree(d, ignore_errors=True)
-    return _base_reports
+    return _base_reports[base]
 
 
 def run(p):
@@ -50,7 +58,7 @@ def run(p):
         if subprocess.run(["git", "apply", "--whitespace=nowarn", p], cwd=d, stdout=subprocess.DEVNULL, stderr=subprocess.DEVNULL).returncode != 0:
             shutil.rmtree(d); os.makedirs(d)
             mode = "BASE"
-            export_base(d)
+            export_base(d, base_of(p))
             subprocess.check_call(["git", "init", "-q"], cwd=d)
             if subprocess.run(["git", "apply", "--whitespace=nowarn", p], cwd=d, stdout=subprocess.DEVNULL, stderr=subprocess.DEVNULL).returncode != 0:
                 return p, "SKIPPED", "does not apply to HEAD nor to its base"
@@ -58,15 +66,15 @@ def run(p):
             rp = reports(d)
         except FACTS.FactsError:
             return p, "SKIPPED", "does not build"
-        new = rp - (base_reports() if mode == "BASE" else set())
+        new = rp - (base_reports(base_of(p)) if mode == "BASE" else set())
         return p, ("ALARM" if new else "SILENT"), ("[%s] " % mode) + "; ".join(sorted(new)[:3])
     finally:
         shutil.rmtree(d, ignore_errors=True)
 
 
 ps = sorted(glob.glob(os.path.join(V, "refactors", "*.diff")))
-if any(True for _ in ps):
-    base_reports()
+for b_ in sorted({base_of(p) for p in ps}):
+    base_reports(b_)
 with ThreadPoolExecutor(max_workers=6) as ex:
     res = list(ex.map(run, ps))
 n = {"SILENT": 0, "ALARM": 0, "SKIPPED": 0}
